@@ -22,8 +22,11 @@ Techniques (DESIGN 2b):
 * T1, AST pattern matching with agreement of call-site tables; registry attribute and tag are compared as text after local temporaries are
   resolved through their single assignment (deref); keys are not compared: R-C14-1a, -1b, -1d, -1e, -1f.  R-C14-1 itself is only the family
   name of 1a..1g (nothing is emitted under it).
-* T1 by LINE-NUMBER ORDER of statements, not by control flow: R-C14-1c, -6, -7 and the remove_node / remove_link part of R-C14-4 (first raise by
-  lineno; guard recognised by the substrings force / not / requires()).
+* T3, interpreted refusal / atomicity histories (rule_refusals, same fixture plus a pipe, a source, a junction with a demand pattern and mock controls):
+  R-C14-6 thirteen add_* calls with an existing name are refused and change nothing; R-C14-7 links naming a missing end node fail without leaving a
+  record; R-C14-4 remove_node / remove_link of an element a control requires (refused; force; with_control; registry refusal keeps the controls);
+  R-C14-1c each usage-filing setter re-assigned to the value it already has leaves the model unchanged.  (These clauses were line-number-order rules
+  before session 3.)
 * T1 with real CFG dominance (sa/cfg.py): R-C14-4b only.
 * presence match: R-C14-1g (the TimeSeries.pattern_name setter contains an add_usage and a remove_usage call; registry, key and order
   are not examined).
@@ -49,14 +52,15 @@ EXPLANATION = (
     "(registries) deleting an element whose usage entry is non-empty raises RuntimeError and changes nothing; R-C14-5s both end-node setters on all 8 "
     "two-node configurations. Structural (T1, AST pattern matching; registry and tag compared as text after resolving local temporaries): R-C14-1 = "
     "family name of 1a-1g: (1a) every add_usage(registry, tag) of a user class has a remove_usage with the same registry and tag in the kind's "
-    "__delitem__, (1b) and conversely; (1c) a method calling both removes on an earlier LINE than it adds; (1d, 1e, 1f) a usage key is a name, never "
+    "__delitem__, (1b) and conversely; (1c) a method calling both uses one registry and one tag, and (T3) re-assigning the value a setter already has keeps "
+    "the record; (1d, 1e, 1f) a usage key is a name, never "
     "a Pattern object or its truthiness; (1g, presence only) the TimeSeries.pattern_name setter contains an add_usage and a remove_usage call. "
-    "R-C14-4 (remove_node/remove_link part: first raise by line number, guard by substrings force/requires()): the refusal because of a control "
-    "precedes the deletion. R-C14-4b (CFG dominance): the registry deletion dominates every remove_control in remove_node/remove_link. R-C14-5 "
+    "R-C14-4 (remove_node/remove_link part, T3 histories with mock controls): refusal while a control requires the element changes nothing, force removes "
+    "the element only, with_control exactly the requiring controls. R-C14-4b (CFG dominance): the registry deletion dominates every remove_control in remove_node/remove_link. R-C14-5 "
     "(views): name list, count and typed iterator of a kind read one typed set (single-return accessors by AST pattern; the typed generators are run "
     "per type argument by the local evaluator GenEval: T3, exhaustive over the type arguments); adjacency is a text match on get_links_for_node / "
-    "to_graph, not validated against end nodes. R-C14-6 / R-C14-7 (line-number order): duplicate-name refusal precedes construction in 9 add_* "
-    "methods; Link.__init__ looks up both end nodes before the first add_usage.")
+    "to_graph, not validated against end nodes. R-C14-6 / R-C14-7 (T3 histories): an add_* with an existing name, or naming a missing end node, is refused "
+    "and leaves the model unchanged.")
 RULE_TEXT = ("one instance = one (rule, construct): a usage registration site, a deletion method, a typed subset, a view accessor; "
              "distinct = distinct constructs")
 
